@@ -123,11 +123,18 @@ pub struct Mixed {
     #[rustradio(in)]
     b: ReadStream<u8>,
     #[rustradio(out)]
-    first: WriteStream<u32>,
+    a_first: WriteStream<u32>,
     #[rustradio(out)]
-    second: NCWriteStream<Vec<u8>>,
+    b_second: NCWriteStream<Vec<u8>>,
     #[rustradio(out)]
-    third: WriteStream<u64>,
+    c_third: WriteStream<u64>,
+    // Two outputs of one type whose names (e_ before d_) are not in alphabetical order, while the names of the differently typed ones are: a
+    // constructor that hands the read ends back in any other order than the
+    // declared one still compiles, and crosses the streams.
+    #[rustradio(out)]
+    e_zulu: WriteStream<u32>,
+    #[rustradio(out)]
+    d_alpha: WriteStream<u32>,
     #[rustradio(default)]
     emitted: bool,
 }
@@ -135,12 +142,18 @@ impl Block for Mixed {
     fn work(&mut self) -> Result<BlockRet> {
         if !self.emitted {
             self.emitted = true;
-            let mut o = self.first.write_buf()?;
+            let mut o = self.a_first.write_buf()?;
             o.slice()[0] = 111;
             o.produce(1, &[]);
-            self.second.push(vec![222], &[]);
-            let mut o = self.third.write_buf()?;
+            self.b_second.push(vec![222], &[]);
+            let mut o = self.c_third.write_buf()?;
             o.slice()[0] = 333;
+            o.produce(1, &[]);
+            let mut o = self.e_zulu.write_buf()?;
+            o.slice()[0] = 444;
+            o.produce(1, &[]);
+            let mut o = self.d_alpha.write_buf()?;
+            o.slice()[0] = 555;
             o.produce(1, &[]);
         }
         Ok(BlockRet::WaitForStream(&self.a, 1))
@@ -253,7 +266,7 @@ impl Check for DeriveCheck {
                 rustradio::verif::set_stream_size(small);
                 let (pa, ra) = StreamIn::new(vec![1u32, 2, 3], vec![]);
                 let (pb, rb) = StreamIn::new(vec![9u8], vec![]);
-                let (mut blk, first, second, third): (Mixed, ReadStream<u32>, NCReadStream<Vec<u8>>, ReadStream<u64>) = Mixed::new(ra, rb);
+                let (mut blk, first, second, third, zulu, alpha): (Mixed, ReadStream<u32>, NCReadStream<Vec<u8>>, ReadStream<u64>, ReadStream<u32>, ReadStream<u32>) = Mixed::new(ra, rb);
                 rustradio::verif::set_stream_size(0);
                 let _ = blk.work();
                 ctx.nontrivial = true;
@@ -261,8 +274,10 @@ impl Check for DeriveCheck {
                 let f = first.read_buf().map(|(b, _)| b.slice().to_vec()).unwrap_or_default();
                 let s = second.pop().map(|p| p.0);
                 let t = third.read_buf().map(|(b, _)| b.slice().to_vec()).unwrap_or_default();
-                if f != vec![111] || s != Some(vec![222]) || t != vec![333] {
-                    return ctx.tolerate(Violation::new("C19:constructor-order", format!("generated new() did not return the read ends in declaration order: first={f:?} second={s:?} third={t:?}")));
+                let z = zulu.read_buf().map(|(b, _)| b.slice().to_vec()).unwrap_or_default();
+                let al = alpha.read_buf().map(|(b, _)| b.slice().to_vec()).unwrap_or_default();
+                if f != vec![111] || s != Some(vec![222]) || t != vec![333] || z != vec![444] || al != vec![555] {
+                    return ctx.tolerate(Violation::new("C19:constructor-order", format!("generated new() did not return the read ends in declaration order: first={f:?} second={s:?} third={t:?} fourth={z:?} fifth={al:?}")));
                 }
                 ctx.count("constructor_order_checked");
                 // eof(): false while any input is open or holds data.
